@@ -293,6 +293,38 @@ def check(run):
     # ---- R4 container hashes
     _containers(run, ix)
 
+    # ---- R6 what is handed to a DataStore keeps a caller's TrackedArray (or copies it)
+    run.rule("R6", "a value stored into a DataStore is never an untracked alias of a caller's array: conversions on the way in preserve the subclass (asanyarray) or copy; "
+                   "np.asarray / .view(np.ndarray) of a tracked array would put a second dirty flag on the same memory")
+    import re as _re
+    from ..provenance import Prov
+    STRIPS = _re.compile(r"numpy\.asarray\((?:P_|PHI_)\w+|(?:P_|PHI_)\w+\.view\(numpy\.ndarray\)|numpy\.ndarray\.view\((?:P_|PHI_)")
+    n6 = 0
+    for f in ix.all_functions:
+        stores = [st for st in ast.walk(f.node) if isinstance(st, ast.Assign) and isinstance(st.targets[0], ast.Subscript)
+                  and ast.unparse(st.targets[0].value).endswith("._data")]
+        if not stores:
+            continue
+        pv = Prov(ix, f)
+        for st in stores:
+            if not pv.cfg.nodes_of.get(id(st)):
+                continue
+            n6 += 1
+            texts = {pv.canon(st.value, st, strip=False)}
+            # follow merge points one level
+            for nm in {n.id for n in ast.walk(st.value) if isinstance(n, ast.Name)}:
+                alts = pv.alternatives(nm, st, strip=False)
+                if alts:
+                    texts |= alts
+            bad = sorted(t for t in texts if STRIPS.search(t))
+            ok = not bad
+            run.instance("R6", f.where, f"{f.qualname}: `{ast.unparse(st.targets[0])[:40]}` <- {sorted(texts)[0][:70]}", ok)
+            if not ok:
+                run.violation("R6", f.where, f"`{f.qualname}` stores `{bad[0][:90]}` into its DataStore: np.asarray / view(np.ndarray) of a caller's TrackedArray is a plain window "
+                                             f"on the same memory, the store wraps it in a second TrackedArray, and writes through the caller's array no longer dirty the stored one",
+                              key=key_of("C02-R6", f.qualname, ast.unparse(st.targets[0])[:30]))
+    run.floor("DataStore stores examined", n6, 20)
+
     # ---- R5 bypass routes: honest statement of what no override can see
     has_ufunc = "__array_ufunc__" in defined or "__array_function__" in defined
     run.instance("R5", ta.where, f"__array_ufunc__/__array_function__ defined: {has_ufunc}", True, nontrivial=True)
